@@ -2,6 +2,7 @@ import ERP.Spec.Lifecycle
 import ERP.Lemmas.Monad
 import ERP.Properties.C11
 import ERP.Lemmas.GenConsts
+import ERP.Lemmas.GenTies
 /-! # C10 — Every print starts from a clean tracking state -/
 namespace ERP.C10
 open ERP
